@@ -2,6 +2,7 @@
 from __future__ import annotations
 
 import ast
+import re
 from typing import Dict, List, Optional, Set, Tuple
 
 from ..cfg import NORMAL, Node, handler_classes
@@ -282,6 +283,23 @@ def hint_write_scenarios(ctx: Ctx) -> Optional[Dict[str, Dict[str, object]]]:
                 for nid, _st, _a in explore(ctx, f, [hn.id], env, stop=raises, init=dict(store0)):
                     n_ = g.nodes[nid]
                     outcomes.add(n_.raised if n_.kind == "raise" else "completes normally")
+                    # building the report must not fail itself: `"...%s" % cause.args` raises TypeError for an exception with no /
+                    # several args, and that TypeError leaves the handler INSTEAD of the classification (as a "clean" failure)
+                    if n_.kind == "raise" and n_.ast is not None:
+                        from .common import resolve_value, module_const_value
+                        exprs = [n_.ast] + [x for x, _a2 in resolve_value(ctx, f, getattr(n_.ast, "exc", None), nid) if x is not None]
+                        for root in exprs:
+                            for x in ast.walk(root):
+                                if isinstance(x, ast.BinOp) and isinstance(x.op, ast.Mod):
+                                    tmpl = x.left.value if isinstance(x.left, ast.Constant) else module_const_value(ctx, f.module, x.left)
+                                    if tmpl is None and isinstance(x.left, ast.Attribute) and f.cls is not None:
+                                        tmpl = module_const_value(ctx, f.module, f.cls.consts.get(x.left.attr))
+                                    if isinstance(tmpl, str) or tmpl is None:
+                                        n_spec = len(re.findall(r"%[^%]", tmpl.replace("%%", ""))) if isinstance(tmpl, str) else None
+                                        safe = (isinstance(x.right, ast.Tuple) and (n_spec is None or len(x.right.elts) == n_spec)) \
+                                            or (isinstance(x.right, (ast.Constant, ast.JoinedStr)) and n_spec in (None, 1))
+                                        if not safe:
+                                            outcomes.add("TypeError (formatting the report: `" + norm_text(x)[:40] + "`)")
             info[kind] = sorted(x or "?" for x in outcomes)
         out[label] = info
     return out
